@@ -33,6 +33,16 @@ Theorem C07_grouping : forall env cf (groups : list (list pdv)) d dfin,
 Proof. exact grouping_independent. Qed.
 Print Assumptions C07_grouping.
 
-(* non-vacuity: a C-ECHO-RQ command set (no data set) is a well-formed message for the tabulated table *)
+(* non-vacuity: a C-STORE-RQ command set with a 9-byte data set for a class kept in files is a
+   well-formed message; at maximum length 12 it is sent in 8 fragments *)
+Definition ex_env : denv := mkdenv [(1, 2)] [[49; 46; 50]] [3] [68; 73; 67; 77].
+Definition ex_elems : list elem := [(0, 2, [49; 46; 50; 0]); (0, 256, [1; 0]); (0, 2048, [1; 0])].
+Definition ex_data : bytes := [1; 2; 3; 4; 5; 6; 7; 8; 9].
+Example C07_example_wf : wf_message ex_env (enc_elems ex_elems) ex_data 3 1 ex_elems 2.
+Proof. constructor; try reflexivity. left. reflexivity. Qed.
+Example C07_example_encoded :
+  exists fs, dimse_encode (enc_elems ex_elems) ex_data 3 12 = Ok fs /\ length fs = 8%nat /\
+  file_for ex_env ex_data ex_elems 2 = Some [68; 73; 67; 77].
+Proof. eexists. split; [vm_compute; reflexivity|]. split; reflexivity. Qed.
 Example C07_example_flags : expected_flags [1; 2; 3] = [true; true; false].
 Proof. reflexivity. Qed.
